@@ -47,7 +47,7 @@ WIDE = dict(Exs=["A", "B", "C"], Typs=["spot", "fut"], Levs=["l1", "l2", "l5"], 
             Sims=["step", "fast"], Hps=["none", "full", "part"],
             Gens=["none", "logs", "equity", "hp", "json", "csv", "tv"])
 INVARIANTS = ["SeesDriver", "SeesType", "SeesLeverage", "SeesMode", "SeesFeeRate", "SeesFeeInTrades", "SeesBalance",
-              "SeesWarmSize", "SeesWarmVisible", "SeesRoutes", "SeesFreshVars"]
+              "SeesWarmSize", "SeesWarmVisible", "SeesRoutes", "SeesFreshVars", "SeesDebugMode"]
 ACTIONS = ["EarlierCall", "ProbeCall", "SetConfig", "SetRoutes", "StoreResetAtStart", "InitStorage", "InjectWarmup",
            "PrepareRoutes", "FirstStep", "Submit", "CloseTrade", "Outputs", "ResetConfig", "StoreResetAtEnd", "Crash"]
 
@@ -78,8 +78,8 @@ def cfg(probe, lattice, calls, flips, intended, export, invariants=()):
                  % (p["ex"], p["typ"], p["lev"], p["mode"], p["fee"], p["bal"], p["warm"], p["rt"], p["sim"], p["hp"], p["gen"]))
     t = "TRUE" if intended else "FALSE"
     lines.append(" MaxCalls = %d MaxFlips = %d" % (calls, flips))
-    lines.append(" CacheInvalidated = %s DriversRebuilt = %s SharedVarsReset = %s Export = %s"
-                 % (t, t, t, "TRUE" if export else "FALSE"))
+    lines.append(" CacheInvalidated = %s DriversRebuilt = %s SharedVarsReset = %s DebugReset = %s Export = %s"
+                 % (t, t, t, t, "TRUE" if export else "FALSE"))
     lines += ["INVARIANT TypeOK", "INVARIANT ProbeReturns"] + ["INVARIANT %s" % i for i in invariants]
     return "\n".join(lines) + "\n"
 
@@ -107,7 +107,7 @@ def expected(a):
     return dict(typ="futures" if fut else "spot", lev=str(d.LEV[a["lev"]]) if fut else "n/a",
                 mode=d.MODE[a["mode"]] if fut else "n/a", fee=d.r(float(d.FEE[a["fee"]])), bal=d.r(float(d.BAL[a["bal"]])),
                 visible=str(nwarm // tf + 1), slice=str(wnum if 0 < wnum < d.PROBE_ROWS else d.PROBE_ROWS),
-                routes=[[ex, s, t] for s, t in trading + data],
+                routes=[[ex, s, t] for s, t in trading + data], debug="on" if a.get("gen") == "logs" else "off",
                 hp=[[k, str(d.HP_DEFAULTS_PROBE[k] if (d.HP[a["hp"]] or {}).get(k) is None else d.HP[a["hp"]][k])]
                     for k in ("every", "tp", "hold")])
 
